@@ -266,11 +266,14 @@ func (p *poller) readWriteLoop() {
 				if c != nil {
 					readPending := false
 					if ev.Events&epollEventsWrite != 0 {
-						if c.onConnected == nil {
+						if ev.Events&epollEventsError != 0 && c.onConnected != nil {
+							// the connect failed (e.g. refused): the socket reports
+							// writable together with the error. The close below
+							// reports the failure to the dial callback.
+						} else if onConnected := c.takeOnConnected(); onConnected == nil {
 							_ = c.flush()
 						} else {
-							c.onConnected(c, nil)
-							c.onConnected = nil
+							onConnected(c, nil)
 							c.resetRead()
 						}
 						// EPOLLONESHOT: this event disabled the fd. When no read
@@ -339,7 +342,14 @@ func (p *poller) readWriteLoop() {
 							ev.Events&(syscall.EPOLLERR|syscall.EPOLLHUP) == 0 {
 							continue
 						}
-						_ = c.closeWithError(io.EOF)
+						err := error(io.EOF)
+						if c.onConnected != nil {
+							// a failed connect: report the socket's error.
+							if e, _ := syscall.GetsockoptInt(fd, syscall.SOL_SOCKET, syscall.SO_ERROR); e != 0 {
+								err = syscall.Errno(e)
+							}
+						}
+						_ = c.closeWithError(err)
 						continue
 					}
 				}
